@@ -1,62 +1,20 @@
-(* C04 proofs, part 2: asFastq header -> fromTaggedBamRecord restores every written tag *)
+(* C04 proofs, part 2: asFastq header -> fromTaggedBamRecord restores every written tag.
+   First for EVERY codec table satisfying [wf_codec] (Section CodecFacts), then for the regenerated tables. *)
 From Coq Require Import ZArith List Bool Lia.
 Import ListNotations.
 From SCMO Require Import Lib.Val Gen.GenCodec Model.C04 Proofs.C04.
 Open Scope Z_scope.
 
-Definition dnw (k : str) : bool := match tagdef k with Some (_, b) => b | None => false end.
-Definition dec_view (w : store) : rstore := map (fun kv => (fst kv, TS (fqSafe (snd kv)))) w.
+Definition dnw_g (C : codec) (k : str) : bool := match tagdef_g C k with Some (_, b) => b | None => false end.
+Definition dec_view_g (C : codec) (w : store) : rstore := map (fun kv => (fst kv, dec_val_g C (snd kv))) w.
+Definition wr_g (C : codec) (t : store) : store := filter (fun kv => negb (dnw_g C (fst kv))) t.
+Definition entry_ok_g (C : codec) (kv : str * str) : Prop := tagdef_g C (fst kv) <> None /\ sepfree_g C (snd kv) = true.
 
-(* ------------------------------------------------------------------ well-formed stores *)
 Lemma nodup_keys_NoDup : forall t : store, nodup_keys t = true -> NoDup (map fst t).
 Proof.
   induction t as [|[k v] t IH]; intro H; [constructor|]. cbn [nodup_keys] in H.
   apply andb_true_iff in H. destruct H as [H1 H2]. cbn [map fst]. constructor; [|apply IH; exact H2].
   apply get_None_notin. unfold has in H1. destruct (get k t); [discriminate|reflexivity].
-Qed.
-
-Lemma wf_store_spec : forall t, wf_store t = true ->
-  NoDup (map fst t) /\ (forall k v, In (k, v) t -> tagdef k <> None /\ sepfree v = true).
-Proof.
-  intros t H. unfold wf_store in H. apply andb_true_iff in H. destruct H as [H H3].
-  apply andb_true_iff in H. destruct H as [H1 H2]. split; [apply nodup_keys_NoDup; exact H1|].
-  intros k v HI. rewrite forallb_forall in H2, H3. specialize (H2 _ HI). specialize (H3 _ HI). cbn [fst snd] in *.
-  split; [|exact H3]. destruct (tagdef k); [discriminate|discriminate].
-Qed.
-
-Lemma tagdef_key_safe : forall k pd, tagdef k = Some pd -> len k = 2 /\ safe k = true.
-Proof.
-  intros k pd H. unfold tagdef in H. apply get_Some_In in H.
-  pose proof gen_keys_safe as G. rewrite forallb_forall in G. specialize (G _ H). cbn [fst] in G.
-  apply andb_true_iff in G. destruct G as [G1 G2]. apply Z.eqb_eq in G1. split; assumption.
-Qed.
-
-Lemma written_cons : forall k v r,
-  written ((k, v) :: r) = match tagdef k with
-                          | None => Raise EKey
-                          | Some (_, b) => match written r with
-                                           | Raise e => Raise e
-                                           | Ok w => Ok (if b then w else (k, v) :: w)
-                                           end
-                          end.
-Proof. reflexivity. Qed.
-
-Lemma written_filter : forall t, (forall k v, In (k, v) t -> tagdef k <> None) ->
-  written t = Ok (filter (fun kv => negb (dnw (fst kv))) t).
-Proof.
-  induction t as [|[k v] t IH]; intro H; [reflexivity|].
-  rewrite written_cons. cbn [filter fst]. unfold dnw at 1.
-  destruct (tagdef k) as [[p b]|] eqn:E; [|exfalso; apply (H k v); [left; reflexivity|exact E]].
-  rewrite IH by (intros k' v' HI; apply (H k' v'); right; exact HI).
-  destruct b; reflexivity.
-Qed.
-
-Lemma written_KeyError : forall t, (exists k v, In (k, v) t /\ tagdef k = None) -> written t = Raise EKey.
-Proof.
-  induction t as [|[k v] t IH]; intros [k' [v' [HI HN]]]; [contradiction|].
-  rewrite written_cons. destruct HI as [HI|HI].
-  - inversion HI; subst. rewrite HN. reflexivity.
-  - destruct (tagdef k) as [[p b]|]; [|reflexivity]. rewrite IH; [reflexivity|]. exists k', v'. split; assumption.
 Qed.
 
 Lemma NoDup_keys_filter : forall (f : str * str -> bool) (t : store), NoDup (map fst t) -> NoDup (map fst (filter f t)).
@@ -67,139 +25,290 @@ Proof.
   apply in_map_iff. exists x. split; assumption.
 Qed.
 
-(* ------------------------------------------------------------------ characters of a header *)
-Lemma sepfree_char_spec : forall c, sepfree_char c = true ->
-  c <> enc_item_sep /\ c <> enc_kv_sep /\ is_space c = false.
+Lemma split1_nosep_sep : forall sep k v, ~ In sep k -> split1 sep (k ++ sep :: v) = Some (k, v).
 Proof.
-  intros c H. unfold sepfree_char in H. apply andb_true_iff in H. destruct H as [H H3].
-  apply andb_true_iff in H. destruct H as [H1 H2].
-  apply negb_true_iff in H1, H2, H3. apply Z.eqb_neq in H1, H2. repeat split; assumption.
+  intros sep k v. induction k as [|c k IH]; intro H.
+  - cbn [app split1]. rewrite Z.eqb_refl. reflexivity.
+  - cbn [app split1]. destruct (c =? sep) eqn:E; [apply Z.eqb_eq in E; subst; exfalso; apply H; left; reflexivity|].
+    rewrite IH; [reflexivity|]. intro HI. apply H. right. exact HI.
 Qed.
 
-Lemma safe_In : forall s c, safe s = true -> In c s -> fq_keep c = true.
-Proof. intros s c H HI. unfold safe in H. rewrite forallb_forall in H. apply H. exact HI. Qed.
+(* ================================================================== every well-formed codec table *)
+Section CodecFacts.
+  Variable C : codec.
+  Hypothesis WF : wf_codec C = true.
 
-Lemma sepfree_In : forall s c, sepfree s = true -> In c s -> sepfree_char c = true.
-Proof. intros s c H HI. unfold sepfree in H. rewrite forallb_forall in H. apply H. exact HI. Qed.
+  Lemma wf_parts :
+    k_isep C = k_disep C /\ k_kvsep C = k_dkvsep C /\ k_isep C <> k_kvsep C /\
+    keep_g C (k_isep C) = false /\ keep_g C (k_kvsep C) = false /\
+    space_g C (k_isep C) = false /\ space_g C (k_kvsep C) = false /\
+    forallb (fun c => negb (keep_g C c)) (k_space C) = true /\
+    forallb (fun e => (len (fst e) =? 2) && forallb (keep_g C) (fst e)) (k_tags C) = true /\
+    k_maxsplit C <> 0.
+  Proof.
+    pose proof WF as W. unfold wf_codec in W. repeat (apply andb_true_iff in W; destruct W as [W ?]).
+    repeat match goal with H : negb _ = true |- _ => apply negb_true_iff in H end.
+    repeat match goal with H : (_ =? _) = true |- _ => apply Z.eqb_eq in H | H : (_ =? _) = false |- _ => apply Z.eqb_neq in H end.
+    repeat split; assumption.
+  Qed.
 
-Lemma key_no_sep : forall k sep, safe k = true -> fq_keep sep = false -> ~ In sep k.
-Proof. intros k sep Hs Hf HI. rewrite (safe_In k sep Hs HI) in Hf. discriminate. Qed.
+  Lemma keep_nospace : forall c, keep_g C c = true -> space_g C c = false.
+  Proof.
+    intros c H. destruct (space_g C c) eqn:E; [|reflexivity]. unfold space_g, in_chars in E.
+    apply existsb_exists in E. destruct E as [x [Hx Ex]]. apply Z.eqb_eq in Ex. subst x.
+    destruct wf_parts as [_ [_ [_ [_ [_ [_ [_ [G _]]]]]]]]. rewrite forallb_forall in G. specialize (G c Hx).
+    rewrite H in G. discriminate.
+  Qed.
 
+  (* ---------------------------------------------------------------- well-formed stores *)
+  Lemma wf_store_spec : forall t, wf_store_g C t = true ->
+    NoDup (map fst t) /\ (forall k v, In (k, v) t -> entry_ok_g C (k, v)).
+  Proof.
+    intros t H. unfold wf_store_g in H. apply andb_true_iff in H. destruct H as [H H3].
+    apply andb_true_iff in H. destruct H as [H1 H2]. split; [apply nodup_keys_NoDup; exact H1|].
+    intros k v HI. rewrite forallb_forall in H2, H3. specialize (H2 _ HI). specialize (H3 _ HI). cbn [fst snd] in *.
+    split; [|exact H3]. cbn [fst]. destruct (tagdef_g C k); [discriminate|discriminate].
+  Qed.
+
+  Lemma tagdef_key_safe : forall k pd, tagdef_g C k = Some pd -> len k = 2 /\ safe_g C k = true.
+  Proof.
+    intros k pd H. unfold tagdef_g in H. apply get_Some_In in H.
+    destruct wf_parts as [_ [_ [_ [_ [_ [_ [_ [_ [G _]]]]]]]]]. rewrite forallb_forall in G. specialize (G _ H). cbn [fst] in G.
+    apply andb_true_iff in G. destruct G as [G1 G2]. apply Z.eqb_eq in G1. split; assumption.
+  Qed.
+
+  Lemma written_cons : forall k v r,
+    written_g C ((k, v) :: r) = match tagdef_g C k with
+                                | None => Raise EKey
+                                | Some (_, b) => match written_g C r with
+                                                 | Raise e => Raise e
+                                                 | Ok w => Ok (if b then w else (k, v) :: w)
+                                                 end
+                                end.
+  Proof. reflexivity. Qed.
+
+  Lemma written_filter : forall t, (forall k v, In (k, v) t -> tagdef_g C k <> None) ->
+    written_g C t = Ok (wr_g C t).
+  Proof.
+    induction t as [|[k v] t IH]; intro H; [reflexivity|].
+    rewrite written_cons. unfold wr_g. cbn [filter fst]. unfold dnw_g at 1.
+    destruct (tagdef_g C k) as [[p b]|] eqn:E; [|exfalso; apply (H k v); [left; reflexivity|exact E]].
+    fold (wr_g C t). rewrite IH by (intros k' v' HI; apply (H k' v'); right; exact HI).
+    destruct b; reflexivity.
+  Qed.
+
+  (* ---------------------------------------------------------------- characters of a header *)
+  Lemma sepfree_char_spec : forall c, sepfree_char_g C c = true ->
+    c <> k_isep C /\ c <> k_kvsep C /\ space_g C c = false.
+  Proof.
+    intros c H. unfold sepfree_char_g in H. apply andb_true_iff in H. destruct H as [H H3].
+    apply andb_true_iff in H. destruct H as [H1 H2].
+    apply negb_true_iff in H1, H2, H3. apply Z.eqb_neq in H1, H2. repeat split; assumption.
+  Qed.
+
+  Lemma safe_In : forall s c, safe_g C s = true -> In c s -> keep_g C c = true.
+  Proof. intros s c H HI. unfold safe_g in H. rewrite forallb_forall in H. apply H. exact HI. Qed.
+
+  Lemma sepfree_In : forall s c, sepfree_g C s = true -> In c s -> sepfree_char_g C c = true.
+  Proof. intros s c H HI. unfold sepfree_g in H. rewrite forallb_forall in H. apply H. exact HI. Qed.
+
+  Lemma key_no_sep : forall k sep, safe_g C k = true -> keep_g C sep = false -> ~ In sep k.
+  Proof. intros k sep Hs Hf HI. rewrite (safe_In k sep Hs HI) in Hf. discriminate. Qed.
+
+  Lemma item_chars : forall kv c, entry_ok_g C kv -> In c (item_g C kv) ->
+    c <> k_isep C /\ space_g C c = false.
+  Proof.
+    intros [k v] c [Hk Hv] HI. cbn [fst snd] in *. unfold item_g in HI. cbn [fst snd] in HI.
+    destruct (tagdef_g C k) as [pd|] eqn:E; [|congruence]. destruct (tagdef_key_safe k pd E) as [_ Hs].
+    destruct wf_parts as [_ [_ [Hne [Hu1 [Hu2 [Hn1 [Hn2 _]]]]]]].
+    apply in_app_or in HI. destruct HI as [HI|[HI|HI]].
+    - pose proof (safe_In k c Hs HI) as Hc. split; [intro; subst; congruence|apply keep_nospace; exact Hc].
+    - subst c. split; [congruence|exact Hn2].
+    - destruct (sepfree_char_spec c (sepfree_In v c Hv HI)) as [A [B D]]. split; assumption.
+  Qed.
+
+  Lemma split_kv_item : forall kv, entry_ok_g C kv -> split_kv_g (k_dkvsep C) (k_maxsplit C) (item_g C kv) = Some kv.
+  Proof.
+    intros [k v] [Hk Hv]. cbn [fst snd] in *. destruct wf_parts as [_ [E [_ [_ [Hu2 [_ [_ [_ [_ Hm]]]]]]]]]. rewrite <- E.
+    destruct (tagdef_g C k) as [pd|] eqn:Ek; [|congruence]. destruct (tagdef_key_safe k pd Ek) as [_ Hs].
+    assert (Hkn : ~ In (k_kvsep C) k) by (apply key_no_sep; assumption).
+    assert (Hvn : ~ In (k_kvsep C) v).
+    { intro HI. destruct (sepfree_char_spec _ (sepfree_In v _ Hv HI)) as [_ [B _]]. congruence. }
+    unfold split_kv_g, item_g. cbn [fst snd]. apply Z.eqb_neq in Hm. rewrite Hm.
+    destruct (k_maxsplit C =? 1).
+    - apply split1_nosep_sep. exact Hkn.
+    - rewrite split_app_sep by exact Hkn. rewrite split_nosep by exact Hvn. reflexivity.
+  Qed.
+
+  Lemma header_nospace : forall w, Forall (entry_ok_g C) w -> Forall (fun c => space_g C c = false) (header_of_g C w).
+  Proof.
+    intros w H. apply Forall_forall. intros c HI. unfold header_of_g in HI. apply join_In in HI.
+    destruct HI as [HI|[p [Hp Hc]]]; [subst; apply wf_parts|].
+    apply in_map_iff in Hp. destruct Hp as [kv [E Hkv]]. subst p. rewrite Forall_forall in H.
+    apply (item_chars kv c (H kv Hkv) Hc).
+  Qed.
+
+  Lemma header_split : forall w, w <> [] -> Forall (entry_ok_g C) w ->
+    split (k_disep C) (header_of_g C w) = map (item_g C) w.
+  Proof.
+    intros w Hne H. destruct wf_parts as [E _]. rewrite <- E. unfold header_of_g. apply split_join.
+    - destruct w; [contradiction|discriminate].
+    - apply Forall_forall. intros p Hp. apply in_map_iff in Hp. destruct Hp as [kv [Ep Hkv]]. subst p.
+      rewrite Forall_forall in H. intro HI. destruct (item_chars kv _ (H kv Hkv) HI) as [A _]. congruence.
+  Qed.
+
+  (* ---------------------------------------------------------------- the decoder loop *)
+  Lemma add_items_cons : forall it r d,
+    add_items_g C (it :: r) d = match split_kv_g (k_dkvsep C) (k_maxsplit C) it with
+                                | None => (d, false)
+                                | Some (k, v) => add_items_g C r (dset k (dec_val_g C v) d)
+                                end.
+  Proof. reflexivity. Qed.
+
+  Lemma add_items_written : forall w d, Forall (entry_ok_g C) w -> NoDup (map fst w) ->
+    (forall k, In k (map fst w) -> get k d = None) ->
+    add_items_g C (map (item_g C) w) d = (d ++ dec_view_g C w, true).
+  Proof.
+    induction w as [|[k v] w IH]; intros d HF ND Hd.
+    - cbn. rewrite app_nil_r. reflexivity.
+    - inversion HF as [|? ? Hkv HF']; subst. cbn [map fst] in ND. inversion ND as [|? ? Hn ND']; subst.
+      cbn [map]. rewrite add_items_cons, (split_kv_item (k, v) Hkv).
+      rewrite dset_fresh by (apply Hd; left; reflexivity).
+      rewrite IH; [unfold dec_view_g; cbn [map fst snd]; rewrite <- app_assoc; reflexivity|exact HF'|exact ND'|].
+      intros k' Hk'. rewrite get_app, (Hd k') by (right; exact Hk'). cbn [get].
+      destruct (str_eqb k' k) eqn:E; [|reflexivity]. apply str_eqb_eq in E. subst. contradiction.
+  Qed.
+
+  (* ---------------------------------------------------------------- the round trip *)
+  Lemma decode_header : forall pi w, w <> [] -> Forall (entry_ok_g C) w -> NoDup (map fst w) ->
+    decode_g C pi (header_of_g C w) = Ok (dec_view_g C w).
+  Proof.
+    intros pi w Hne HF ND. unfold decode_g.
+    assert (E : (if k_strip C then strip_g (k_space C) (header_of_g C w) else header_of_g C w) = header_of_g C w).
+    { destruct (k_strip C); [|reflexivity]. apply strip_g_nospace. apply (header_nospace w HF). }
+    rewrite E. cbv zeta. rewrite header_split by assumption.
+    rewrite add_items_written by (try assumption; reflexivity). reflexivity.
+  Qed.
+
+  Lemma wr_entry_ok_g : forall t, wf_store_g C t = true -> Forall (entry_ok_g C) (wr_g C t).
+  Proof.
+    intros t H. destruct (wf_store_spec t H) as [_ Hall]. apply Forall_forall. intros [k v] HI.
+    apply filter_In in HI. destruct HI as [HI _]. exact (Hall k v HI).
+  Qed.
+
+  Lemma wr_NoDup_g : forall t, wf_store_g C t = true -> NoDup (map fst (wr_g C t)).
+  Proof. intros t H. destruct (wf_store_spec t H) as [ND _]. apply NoDup_keys_filter. exact ND. Qed.
+
+  (* THE ROUND TRIP, for every well-formed codec table and every fallback parser [pi]:
+     what asFastq writes is decoded to the written tags, in order, each value as the decoder stores it *)
+  Lemma roundtrip_g : forall pi t, wf_store_g C t = true ->
+    let w := wr_g C t in
+    written_g C t = Ok w /\
+    (w <> [] -> len (header_of_g C w) <= k_limit C ->
+     encode_g C t = Ok (header_of_g C w) /\ decode_g C pi (header_of_g C w) = Ok (dec_view_g C w)).
+  Proof.
+    intros pi t H w. destruct (wf_store_spec t H) as [ND Hall].
+    assert (Hw : written_g C t = Ok w) by (apply written_filter; intros k v HI; apply (Hall k v HI)).
+    split; [exact Hw|]. intros Hne Hlen. split.
+    - unfold encode_g. rewrite Hw. cbv zeta. destruct (k_limit C <? len (header_of_g C w)) eqn:E; [apply Z.ltb_lt in E; lia|reflexivity].
+    - apply decode_header; [exact Hne|apply wr_entry_ok_g; exact H|apply wr_NoDup_g; exact H].
+  Qed.
+
+  (* each written tag is found again under its name *)
+  Lemma roundtrip_get_g : forall t k v, wf_store_g C t = true -> In (k, v) t -> dnw_g C k = false ->
+    get k (dec_view_g C (wr_g C t)) = Some (dec_val_g C v).
+  Proof.
+    intros t k v H HI Hd. destruct (wf_store_spec t H) as [ND _].
+    unfold dec_view_g. rewrite (get_map_val str tval (dec_val_g C)).
+    rewrite (get_In k v); [reflexivity|apply NoDup_keys_filter; exact ND|].
+    apply filter_In. split; [exact HI|]. cbn [fst]. rewrite Hd. reflexivity.
+  Qed.
+End CodecFacts.
+
+(* values over the kept class come back unchanged, whether or not the decoder filters *)
+Lemma dec_view_g_safe : forall C w, Forall (fun kv => safe_g C (snd kv) = true) w ->
+  dec_view_g C w = map (fun kv => (fst kv, TS (snd kv))) w.
+Proof.
+  intros C. induction w as [|[k v] w IH]; intro H; [reflexivity|]. inversion H; subst. unfold dec_view_g in *. cbn [map fst snd] in *.
+  rewrite IH by assumption. unfold dec_val_g. destruct (k_safe C); [|reflexivity].
+  rewrite (fqSafe_g_fixed (k_keep C)) by assumption. reflexivity.
+Qed.
+
+(* refusal of long headers needs no hypothesis on the tables at all *)
+Lemma refuse_long_g : forall C t w, written_g C t = Ok w ->
+  (encode_g C t = Raise ETooLong <-> k_limit C < len (header_of_g C w)) /\
+  (forall h, encode_g C t = Ok h -> h = header_of_g C w /\ len h <= k_limit C).
+Proof.
+  intros C t w Hw. unfold encode_g. rewrite Hw. cbv zeta.
+  destruct (k_limit C <? len (header_of_g C w)) eqn:E.
+  - apply Z.ltb_lt in E. split; [split; [intros _; exact E|reflexivity]|intros h Hh; discriminate].
+  - apply Z.ltb_ge in E. split; [split; [discriminate|lia]|]. intros h Hh. inversion Hh; subst. split; [reflexivity|lia].
+Qed.
+
+(* ================================================================== the regenerated tables *)
+Definition dnw (k : str) : bool := dnw_g C0 k.
+Definition dec_view (w : store) : rstore := map (fun kv => (fst kv, TS (fqSafe (snd kv)))) w.
 Definition entry_ok (kv : str * str) : Prop := tagdef (fst kv) <> None /\ sepfree (snd kv) = true.
 
-Lemma item_chars : forall kv c, entry_ok kv -> In c (item kv) ->
-  c <> enc_item_sep /\ is_space c = false.
-Proof.
-  intros [k v] c [Hk Hv] HI. cbn [fst snd] in *. unfold item in HI. cbn [fst snd] in HI.
-  destruct (tagdef k) as [pd|] eqn:E; [|congruence]. destruct (tagdef_key_safe k pd E) as [_ Hs].
-  destruct gen_seps as [_ [_ Hne]]. destruct gen_seps_unsafe as [Hu1 Hu2]. destruct gen_seps_nospace as [Hn1 Hn2].
-  apply in_app_or in HI. destruct HI as [HI|[HI|HI]].
-  - pose proof (safe_In k c Hs HI) as Hc. split; [intro; subst; congruence|apply safe_nospace; exact Hc].
-  - subst c. split; [congruence|exact Hn2].
-  - destruct (sepfree_char_spec c (sepfree_In v c Hv HI)) as [A [B C]]. split; assumption.
-Qed.
-
-Lemma split_kv_item : forall kv, entry_ok kv -> split_kv dec_kv_sep (item kv) = Some kv.
-Proof.
-  intros [k v] [Hk Hv]. cbn [fst snd] in *. destruct gen_seps as [_ [E _]]. rewrite <- E.
-  destruct (tagdef k) as [pd|] eqn:Ek; [|congruence]. destruct (tagdef_key_safe k pd Ek) as [_ Hs].
-  destruct gen_seps_unsafe as [_ Hu2].
-  unfold split_kv, item. cbn [fst snd]. rewrite split_app_sep by (apply key_no_sep; assumption).
-  rewrite split_nosep; [reflexivity|].
-  intro HI. destruct (sepfree_char_spec _ (sepfree_In v _ Hv HI)) as [_ [B _]]. congruence.
-Qed.
-
-Lemma header_nospace : forall w, Forall entry_ok w -> Forall (fun c => is_space c = false) (header_of w).
-Proof.
-  intros w H. apply Forall_forall. intros c HI. unfold header_of in HI. apply join_In in HI.
-  destruct HI as [HI|[p [Hp Hc]]]; [subst; apply gen_seps_nospace|].
-  apply in_map_iff in Hp. destruct Hp as [kv [E Hkv]]. subst p. rewrite Forall_forall in H.
-  apply (item_chars kv c (H kv Hkv) Hc).
-Qed.
-
-Lemma header_split : forall w, w <> [] -> Forall entry_ok w -> split dec_item_sep (header_of w) = map item w.
-Proof.
-  intros w Hne H. destruct gen_seps as [E _]. rewrite <- E. unfold header_of. apply split_join.
-  - destruct w; [contradiction|discriminate].
-  - apply Forall_forall. intros p Hp. apply in_map_iff in Hp. destruct Hp as [kv [Ep Hkv]]. subst p.
-    rewrite Forall_forall in H. intro HI. destruct (item_chars kv _ (H kv Hkv) HI) as [A _]. congruence.
-Qed.
-
-(* ------------------------------------------------------------------ the decoder loop *)
-Lemma add_items_cons : forall it r d,
-  add_items (it :: r) d = match split_kv dec_kv_sep it with
-                          | None => (d, false)
-                          | Some (k, v) => add_items r (dset k (TS (fqSafe v)) d)
-                          end.
+Lemma dec_view_C0 : forall w, dec_view_g C0 w = dec_view w.
 Proof. reflexivity. Qed.
 
-Lemma add_items_written : forall w d, Forall entry_ok w -> NoDup (map fst w) ->
-  (forall k, In k (map fst w) -> get k d = None) ->
-  add_items (map item w) d = (d ++ dec_view w, true).
+Lemma gen_seps : enc_item_sep = dec_item_sep /\ enc_kv_sep = dec_kv_sep /\ enc_item_sep <> enc_kv_sep.
+Proof. destruct (wf_parts C0 gen_wf_codec) as [A [B [D _]]]. repeat split; assumption. Qed.
+
+Lemma safe_nospace : forall c, fq_keep c = true -> is_space c = false.
+Proof. exact (keep_nospace C0 gen_wf_codec). Qed.
+
+Lemma wf_store_spec0 : forall t, wf_store t = true ->
+  NoDup (map fst t) /\ (forall k v, In (k, v) t -> tagdef k <> None /\ sepfree v = true).
+Proof. exact (wf_store_spec C0). Qed.
+
+Lemma tagdef_key_safe0 : forall k pd, tagdef k = Some pd -> len k = 2 /\ safe k = true.
+Proof. exact (tagdef_key_safe C0 gen_wf_codec). Qed.
+
+Lemma written_KeyError : forall t, (exists k v, In (k, v) t /\ tagdef k = None) -> written t = Raise EKey.
 Proof.
-  induction w as [|[k v] w IH]; intros d HF ND Hd.
-  - cbn. rewrite app_nil_r. reflexivity.
-  - inversion HF as [|? ? Hkv HF']; subst. cbn [map fst] in ND. inversion ND as [|? ? Hn ND']; subst.
-    cbn [map]. rewrite add_items_cons, (split_kv_item (k, v) Hkv).
-    rewrite dset_fresh by (apply Hd; left; reflexivity).
-    rewrite IH; [unfold dec_view; cbn [map fst snd]; rewrite <- app_assoc; reflexivity|exact HF'|exact ND'|].
-    intros k' Hk'. rewrite get_app, (Hd k') by (right; exact Hk'). cbn [get].
-    destruct (str_eqb k' k) eqn:E; [|reflexivity]. apply str_eqb_eq in E. subst. contradiction.
+  induction t as [|[k v] t IH]; intros [k' [v' [HI HN]]]; [contradiction|].
+  unfold written. rewrite written_cons. destruct HI as [HI|HI].
+  - inversion HI; subst. unfold tagdef in HN. rewrite HN. reflexivity.
+  - destruct (tagdef_g C0 k) as [[p b]|]; [|reflexivity]. fold (written t). rewrite IH; [reflexivity|]. exists k', v'. split; assumption.
 Qed.
 
-(* ------------------------------------------------------------------ the round trip *)
-Lemma decode_header : forall w, w <> [] -> Forall entry_ok w -> NoDup (map fst w) ->
+Lemma header_split0 : forall w, w <> [] -> Forall entry_ok w -> split dec_item_sep (header_of w) = map item w.
+Proof. exact (header_split C0 gen_wf_codec). Qed.
+
+Lemma decode_header0 : forall w, w <> [] -> Forall entry_ok w -> NoDup (map fst w) ->
   decode (header_of w) = Ok (dec_view w).
-Proof.
-  intros w Hne HF ND. unfold decode. rewrite strip_nospace by (apply header_nospace; exact HF).
-  rewrite header_split by assumption. rewrite add_items_written by (try assumption; reflexivity). reflexivity.
-Qed.
+Proof. intros w. exact (decode_header C0 gen_wf_codec _ w). Qed.
 
 Lemma roundtrip : forall t, wf_store t = true ->
   let w := filter (fun kv => negb (dnw (fst kv))) t in
   written t = Ok w /\
   (w <> [] -> len (header_of w) <= header_limit ->
    encode t = Ok (header_of w) /\ decode (header_of w) = Ok (dec_view w)).
-Proof.
-  intros t H w. destruct (wf_store_spec t H) as [ND Hall].
-  assert (Hw : written t = Ok w) by (apply written_filter; intros k v HI; apply (Hall k v HI)).
-  split; [exact Hw|]. intros Hne Hlen. split.
-  - unfold encode. rewrite Hw. cbv zeta. destruct (header_limit <? len (header_of w)) eqn:E; [apply Z.ltb_lt in E; lia|reflexivity].
-  - apply decode_header; [exact Hne| |apply NoDup_keys_filter; exact ND].
-    apply Forall_forall. intros [k v] HI. apply filter_In in HI. destruct HI as [HI _]. exact (Hall k v HI).
-Qed.
+Proof. intros t H. exact (roundtrip_g C0 gen_wf_codec _ t H). Qed.
 
 (* values over the header-safe alphabet come back unchanged *)
 Lemma dec_view_safe : forall w, Forall (fun kv => safe (snd kv) = true) w ->
   dec_view w = map (fun kv => (fst kv, TS (snd kv))) w.
-Proof.
-  induction w as [|[k v] w IH]; intro H; [reflexivity|]. inversion H; subst. unfold dec_view in *. cbn [map fst snd] in *.
-  rewrite fqSafe_fixed by assumption. rewrite IH by assumption. reflexivity.
-Qed.
+Proof. exact (dec_view_g_safe C0). Qed.
 
 (* each written tag is found again under its name *)
 Lemma roundtrip_get : forall t k v, wf_store t = true -> In (k, v) t -> dnw k = false ->
   get k (dec_view (filter (fun kv => negb (dnw (fst kv))) t)) = Some (TS (fqSafe v)).
-Proof.
-  intros t k v H HI Hd. destruct (wf_store_spec t H) as [ND _].
-  unfold dec_view. rewrite (get_map_val str tval (fun x => TS (fqSafe x))).
-  rewrite (get_In k v); [reflexivity|apply NoDup_keys_filter; exact ND|].
-  apply filter_In. split; [exact HI|]. cbn [fst]. rewrite Hd. reflexivity.
-Qed.
+Proof. exact (roundtrip_get_g C0). Qed.
 
 (* ------------------------------------------------------------------ refusal of long headers *)
 Lemma refuse_long : forall t w, written t = Ok w ->
   (encode t = Raise ETooLong <-> header_limit < len (header_of w)) /\
   (forall h, encode t = Ok h -> h = header_of w /\ len h <= 254).
 Proof.
-  intros t w Hw. unfold encode. rewrite Hw. cbv zeta. pose proof gen_limit as G.
-  destruct (header_limit <? len (header_of w)) eqn:E.
-  - apply Z.ltb_lt in E. split; [split; [intros _; exact E|reflexivity]|intros h Hh; discriminate].
-  - apply Z.ltb_ge in E. split; [split; [discriminate|lia]|]. intros h Hh. inversion Hh; subst. split; [reflexivity|lia].
+  intros t w Hw. destruct (refuse_long_g C0 t w Hw) as [A B]. split; [exact A|].
+  intros h Hh. destruct (B h Hh) as [B1 B2]. split; [exact B1|]. pose proof gen_limit. change (k_limit C0) with header_limit in B2. lia.
 Qed.
 
 Lemma encode_never_truncates : forall t h, encode t = Ok h -> exists w, written t = Ok w /\ h = header_of w.
 Proof.
-  intros t h H. unfold encode in H. destruct (written t) as [w|e] eqn:E; [|discriminate]. cbv zeta in H.
-  destruct (header_limit <? len (header_of w)); [discriminate|]. inversion H. exists w. split; reflexivity.
+  intros t h H. unfold encode, encode_g in H. fold (written t) in H. destruct (written t) as [w|e] eqn:E; [|discriminate]. cbv zeta in H.
+  destruct (k_limit C0 <? len (header_of_g C0 w)); [discriminate|]. inversion H. exists w. split; reflexivity.
 Qed.
